@@ -18,6 +18,12 @@ groups:
        txt:  j | x | r,<adkim>,<aspf>,<p>,<sp|->,<pct|->      each followed by #<hex of the raw text> (replay only)
   I … | H …                                 generator intent and raw header: for the Go monitor and replay, ignored here
   R d <val> <dom> | R s <val> <from> <helo> | R o
+  B <n|->{3} q<k> smtp|lmtp                 (reply only) pipeline run with a timing: number of R results the check of
+                                            the global / source / recipient block reports (in order; `-`: no check
+                                            in that block), q<k>: block of the quarantining check, smtp|lmtp: Body or
+                                            BodyNonAtomic (both harness only: the same checkBody/applyResults sequence)
+  A <dom> <stage>                           (with B) the answer for _dmarc.<dom> arrives at that stage (0 at once,
+                                            k while the checks of block k run, 4 after all of them)
   t <dom> <lower> <publicSuffix(lower)> <etld1(lower)|!>     library answers for a domain
   c <dom> <class>                           strings.EqualFold classes (same class ⇔ EqualFold)
   o <dom> <org>                             the KNOWN organizational domain (hand-written list; `laws` only)
@@ -43,6 +49,8 @@ structure Tabs where
   dns : List (Str × Lookup) := []
   hdr : List FieldParse := []      -- reversed
   res : List AuthRes := []         -- reversed
+  blocks : Option (List (Option Nat)) := none
+  arr : List (Str × Nat) := []
 
 def groups (toks : List String) : List (List String) :=
   let rec go (cur : List String) (acc : List (List String)) : List String → List (List String)
@@ -95,6 +103,11 @@ def parse (gs : List (List String)) : Option Tabs :=
     | ["R", "d", v, d] => do pure { T with res := .dkim (← val? v) (← dom? d) :: T.res }
     | ["R", "s", v, f, h] => do pure { T with res := .spf (← val? v) (← dom? f) (← dom? h) :: T.res }
     | ["R", "o"] => some { T with res := .other :: T.res }
+    | ["B", a, b, c, q, how] =>
+      if !(q.startsWith "q") || (how != "smtp" && how != "lmtp") then none else do
+      let cnt (x : String) : Option (Option Nat) := if x == "-" then some none else x.toNat?.map some
+      pure { T with blocks := some [← cnt a, ← cnt b, ← cnt c] }
+    | ["A", d, st] => do pure { T with arr := T.arr ++ [(← dom? d, ← st.toNat?)] }
     | ["t", d, l, p, e] => do
       let e ← if e == "!" then some none else (dom? e).map some
       pure { T with t := (← dom? d, (← dom? l, ← dom? p, e)) :: T.t }
@@ -127,6 +140,20 @@ def Tabs.dnsFn (T : Tabs) (name : Str) : Lookup :=
   | some k => match T.dns.find? (fun p => T.cls p.1 == some k) with
     | some p => p.2
     | none => .other
+
+/-- arrival stage of the answer for a name (names compare case-insensitively); `none`: not shipped -/
+def Tabs.arrFn (T : Tabs) (name : Str) : Option Nat :=
+  match T.cls name with
+  | none => none
+  | some k => (T.arr.find? (fun p => T.cls p.1 == some k)).map (·.2)
+
+/-- the results each existing block reports: consecutive pieces of the result list -/
+def splitBlocks : List (Option Nat) → List AuthRes → Option (List (List AuthRes))
+  | [], [] => some []
+  | [], _ :: _ => none
+  | none :: bs, rs => splitBlocks bs rs
+  | some n :: bs, rs =>
+    if rs.length < n then none else (splitBlocks bs (rs.drop n)).map (rs.take n :: ·)
 
 def authDoms : AuthRes → List Str
   | .dkim _ d => [d]
@@ -195,7 +222,15 @@ def handle (toks : List String) : String :=
           let r := verify P T.dnsFn T.hdr T.res rnd
           if op == "verify" then
             s!"{showVal r.1.val} {showReason r.1.reason} {b01 r.1.spfAligned} {b01 r.1.dkimAligned} {showPol r.2}"
-          else showReply (applyResults (q == "1") r)
+          else match T.blocks with
+            | none => showReply (applyResults (q == "1") r)
+            | some bl =>
+              -- pipeline run with a timing: the model of the asynchronous hand-off
+              match splitBlocks bl T.res with
+              | none => "bad-op"
+              | some blocks =>
+                if !(T.dns.all fun p => (T.arrFn p.1).isSome) then "missing" else
+                showReply (pipelineBody P T.dnsFn (fun n => (T.arrFn n).getD 0) T.hdr blocks rnd (q == "1"))
         | _, _ => "bad-op"
       | ["extract"] =>
         match extractFromDomain T.hdr with
